@@ -240,9 +240,14 @@ fn run_lib(texts: &[String], order: &[usize], picks: &[usize], main: Option<&str
         picks_owned.get(i).copied().unwrap_or(0) % names.len().max(1)
     })));
     let ordered: Vec<&str> = order.iter().map(|i| texts[*i].as_str()).collect();
-    let r = guarded(|| match main {
-        None => Schema::parse_list(ordered.iter()).map(|v| (None, v)).map_err(|e| e.to_string()),
-        Some(m) => Schema::parse_str_with_list(m, ordered.iter()).map(|(m, v)| (Some(m), v)).map_err(|e| e.to_string()),
+    // the inputs arrive as a slice iterator (exact size hint) or, for every other pick sequence,
+    // through an adaptor whose lower size hint is 0, as `lines()` or `filter` would give
+    let lazy = picks.first().map(|p| p % 2 == 1).unwrap_or(false);
+    let r = guarded(|| match (main, lazy) {
+        (None, false) => Schema::parse_list(ordered.iter()).map(|v| (None, v)).map_err(|e| e.to_string()),
+        (None, true) => Schema::parse_list(ordered.iter().filter(|_| true)).map(|v| (None, v)).map_err(|e| e.to_string()),
+        (Some(m), false) => Schema::parse_str_with_list(m, ordered.iter()).map(|(m, v)| (Some(m), v)).map_err(|e| e.to_string()),
+        (Some(m), true) => Schema::parse_str_with_list(m, ordered.iter().filter(|_| true)).map(|(m, v)| (Some(m), v)).map_err(|e| e.to_string()),
     });
     apache_avro::verif_hooks::set_pick_pending(None);
     let r = r?;
